@@ -119,6 +119,12 @@ POOL = [
     ("Lit01", "load", Lit01, [{"v": 0}, {"v": True}, {"v": 1}, {"v": False}]),
     ("LitFT", "load", LitFT, [{"v": 0}, {"v": True}, {"v": 1}, {"v": False}]),
     ("Union[Literal[0],Literal[False]]", "load", Union[Literal[0], str], SCALARS),
+    # requests that differ only in values whose HASHES collide (hash(-1) == hash(-2), hash(2**61 - 1) == hash(0) on 64-bit CPython):
+    # whatever memoises by request must compare the requests, not their hashes (seeded change: call cache keyed by hash(key))
+    ("Literal[-1]", "load", Literal[-1], [-1, -2, 0, 2 ** 61 - 1]), ("Literal[-2]", "load", Literal[-2], [-1, -2, 0, 2 ** 61 - 1]),
+    ("Literal[2**61-1]", "load", Literal[2305843009213693951], [-1, -2, 0, 2 ** 61 - 1]),
+    ("List[Literal[-1]]", "load", List[Literal[-1]], [[-1], [-2]]), ("List[Literal[-2]]", "load", List[Literal[-2]], [[-1], [-2]]),
+    ("dump:Union[Literal[-1],str]", "dump", Union[Literal[-1], str], [-1, "a"]), ("dump:Union[Literal[-2],str]", "dump", Union[Literal[-2], str], [-2, "a"]),
     ("List[int]", "load", List[int], [[1], [True], ["1"], (1,), "ab", {1: 2}]),
     ("list[int]", "load", list[int], [[1], [True], ["1"], (1,), "ab", {1: 2}]),
     ("Sequence[int]", "load", Sequence[int], [[1], [True], ["1"], (1,), "ab", {1: 2}]),
